@@ -484,7 +484,7 @@ def run_property(pid, tier, seed):
                                  "reports_only": R.ASPECTS.get(pid) if mode == "clitable" else None,
                                  "bound": ("real binary over 54 formula texts (valid, malformed, extreme) x 17 option sets, 9 ordering files, 3 input channels, invalid UTF-8, plus seeded random combinations; requirement: no panic"
                                            if mode == "cli" else
-                                           "real binary, 40+ formulas x {-m -t, -m -t -f true, -m -v, -m -c true|false -t}: exactly one satisfying row / listed model for a satisfiable formula (resp. for what -c X -t prints), none otherwise, and every assignment it covers satisfies it"
+                                           "real binary, a 70-variable cube and 40+ formulas x {-m -t, -m -t -f true, -m -v, -m -c true|false -t}: exactly one satisfying row / listed model for a satisfiable formula (resp. for what -c X -t prints), none otherwise, and every assignment it covers satisfies it"
                                            if mode == "climodel" else
                                            "real binary, 36 formulas (incl. bound-before-free names, shadowing, fixed points, extreme constants) x {-t, -t -f true/false/any, -v} against the replay crate's independent evaluator: columns = the free variables in variable order; disjoint rows with the right result on every covered assignment; coverage = all / satisfying / falsifying assignments per filter; -v = exactly the satisfying assignments over free names; identical table / listing through --evaluate, file and stdin, for -b 1/2/3/5 and for the 12 filter spellings; combined options (-r -t -v, -m -t -v, -c X -t -v, ...) print exactly the sections each option prints on its own"
                                            if mode == "clitable" else
